@@ -256,6 +256,7 @@ func cmdReplay(args []string) {
 		fmt.Println("the tree does not load:", err)
 		os.Exit(2)
 	}
+	e.loadBaseLocals(verifRoot)
 	res := e.VerifyFunc(fn, prop)
 	if res.Err != "" {
 		fmt.Printf("STILL FAILS: %s cannot be brought under the generator: %s\n", fn, res.Err)
